@@ -135,23 +135,22 @@ theorem crcByte_eq (c : UInt32) (b : UInt8) :
 
 /-! ## HMAC -/
 
-theorem hmacCode_eq_rfc (H : Bytes → Bytes) (B : Nat) (k t : Bytes) (h : k.length ≤ B) :
+/-- the code's HMAC is RFC 2104 for every key, provided the digest is not longer than a block (true of every hash
+function HMAC is defined for; 20 ≤ 64 for SHA-1) -/
+theorem hmacCode_eq_rfc (H : Bytes → Bytes) (B : Nat) (k t : Bytes) (hH : ∀ x, (H x).length ≤ B) :
     hmacCode H B k t = hmacRfc H B k t := by
-  have hk : ¬ k.length > B := by omega
-  have hl : (k ++ zeros (B - k.length)).length = B := by simp [zeros]; omega
-  have e : (k ++ zeros (B - k.length)).take B = k ++ zeros (B - k.length) :=
-    List.take_of_length_le (by omega)
-  simp only [hmacCode, hmacRfc, hmac, hmacKey0, hk, if_false, hmacKeyed, hmacIpad, hmacOpad, e]
+  have hk0 : (if k.length > B then H k else k).length ≤ B := by
+    split
+    · exact hH k
+    · omega
+  have e : ((if k.length > B then H k else k) ++ zeros (B - (if k.length > B then H k else k).length)).take B =
+      (if k.length > B then H k else k) ++ zeros (B - (if k.length > B then H k else k).length) :=
+    List.take_of_length_le (by simp only [List.length_append, zeros, List.length_replicate]; omega)
+  simp only [hmacCode, hmacRfc, hmac, hmacKey0, hmacKeyed, hmacIpad, hmacOpad, e]
 
-theorem hmacCode_tail (H : Bytes → Bytes) (B : Nat) (k a t : Bytes) (h : k.length = B) :
-    hmacCode H B (k ++ a) t = hmacCode H B k t := by
-  have e1 : ((k ++ a) ++ zeros (B - (k ++ a).length)).take B = k := by
-    rw [List.append_assoc, List.take_append_of_le_length (by omega)]
-    exact List.take_of_length_le (by omega)
-  have e2 : (k ++ zeros (B - k.length)).take B = k := by
-    rw [List.take_append_of_le_length (by omega)]
-    exact List.take_of_length_le (by omega)
-  simp only [hmacCode, e1, e2]
+theorem hmacCode_eq_rfc_20 (H : Bytes → Bytes) (hH : ∀ x, (H x).length = 20) (k t : Bytes) :
+    hmacCode H 64 k t = hmacRfc H 64 k t :=
+  hmacCode_eq_rfc H 64 k t (fun x => by rw [hH x]; decide)
 
 /-! ## QDataStream reads of what encode wrote -/
 
@@ -187,13 +186,14 @@ theorem loop_done (H : Bytes → Bytes) (buf key : Bytes) (len done : Nat) (s : 
 
 /-- the loop in front of a complete attribute (`ty`, `aLen`, value and padding `val`) that `attrStep` accepts -/
 theorem loop_tlv (H : Bytes → Bytes) (buf key : Bytes) (len done ty aLen : Nat) (val rest : Bytes) (m m' : Msg)
-    (hty : ty < 65536) (hal : aLen < 65536) (hlt : done < len)
+    (hty : ty < 65536) (hal : aLen < 65536) (hlt : done < len) (hb : done + 4 + aLen ≤ len)
     (hstep : attrStep H buf key done ty aLen (val ++ rest) m none = .next (val.drop aLen ++ rest) m' none)
     (hval : val.length = aLen + pad4 aLen) :
     loop H buf key len done (putU16 ty ++ (putU16 aLen ++ (val ++ rest))) m none
       = loop H buf key len (done + (4 + aLen + pad4 aLen)) rest m' none := by
   rw [loop]
-  simp only [hlt, dite_true, rdU16_put _ _ hty, rdU16_put _ _ hal, Option.isSome_none, Bool.false_eq_true, false_and,
+  have hb' : ¬ (done + 4 + aLen > len) := by omega
+  simp only [hlt, dite_true, rdU16_put _ _ hty, rdU16_put _ _ hal, hb', Option.isSome_none, Bool.false_eq_true, false_and,
     if_false, hstep]
   congr 1
   rw [← List.drop_append_of_le_length (by omega), List.drop_drop]
@@ -243,6 +243,7 @@ theorem steps_of_tlv (ty aLen : Nat) (val : Bytes) (x y : Msg) (hty : ty < 65536
     simp only [List.length_append, putU16_len] at hinv; omega
   simp only [List.append_assoc] at hinv ⊢
   rw [loop_tlv H buf key len done ty aLen val rest x y hty hlen
+    (by simp only [List.length_append, putU16_len] at hinv; omega)
     (by simp only [List.length_append, putU16_len] at hinv; omega) (hstep H buf key done rest hlen) hval]
   congr 1
   simp only [List.length_append, putU16_len]; omega
@@ -694,7 +695,7 @@ theorem attrStep_mi (H : Bytes → Bytes) (buf key : Bytes) (done aLen : Nat) (s
     if_false, if_true]
 
 /-- the loop in front of a MESSAGE-INTEGRITY attribute whose value is the code's HMAC of the adjusted prefix -/
-theorem loop_mi (H : Bytes → Bytes) (buf key : Bytes) (len done : Nat) (mac rest : Bytes) (y : Msg) (hlt : done < len)
+theorem loop_mi (H : Bytes → Bytes) (buf key : Bytes) (len done : Nat) (mac rest : Bytes) (y : Msg) (hlt : done < len) (hb : done + 24 ≤ len)
     (hmac : mac = hmacCode H 64 key (setLen (buf.take (Stun.headerSize + done)) (done + Stun.miAdjust)))
     (hl : mac.length = 20) :
     loop H buf key len done (putU16 Stun.messageIntegrity ++ (putU16 20 ++ (mac ++ rest))) y none
@@ -703,21 +704,23 @@ theorem loop_mi (H : Bytes → Bytes) (buf key : Bytes) (len done : Nat) (mac re
   have e := rdRaw_append mac rest
   rw [hl] at e
   have hp : pad4 20 = 0 := by decide
+  have hb' : ¬ (done + 4 + 20 > len) := by omega
   simp only [hlt, dite_true, rdU16_put _ _ (show Stun.messageIntegrity < 65536 by decide),
-    rdU16_put _ _ (show 20 < 65536 by decide), Option.isSome_none, Bool.false_eq_true, false_and, if_false,
+    rdU16_put _ _ (show 20 < 65536 by decide), hb', Option.isSome_none, Bool.false_eq_true, false_and, if_false,
     attrStep_mi, stepMI, e, ← hmac, ne_eq, not_true_eq_false, and_false, hp, Nat.add_zero, List.drop_zero]
 
 
 /-- the loop in front of a FINGERPRINT attribute whose value is the code's CRC of the adjusted prefix -/
 theorem loop_fp (H : Bytes → Bytes) (buf key : Bytes) (len done v : Nat) (rest : Bytes) (y : Msg) (mi : Option Nat)
-    (hlt : done < len)
+    (hlt : done < len) (hb : done + 8 ≤ len)
     (hv : v = fingerprintOf (setLen (buf.take (Stun.headerSize + done)) (done + Stun.fpAdjust))) :
     loop H buf key len done (putU16 Stun.fingerprint ++ (putU16 4 ++ (putU32 v ++ rest))) y mi
       = some ⟨y, mi, some done⟩ := by
   rw [loop]
   have hvl : v < 4294967296 := by rw [hv]; exact fingerprintOf_lt _
+  have hb' : ¬ (done + 4 + 4 > len) := by omega
   simp only [hlt, dite_true, rdU16_put _ _ (show Stun.fingerprint < 65536 by decide),
-    rdU16_put _ _ (show 4 < 65536 by decide), attrStep_fp, stepFP, rdU32_put _ _ hvl, ← hv, ne_eq, not_true_eq_false,
+    rdU16_put _ _ (show 4 < 65536 by decide), hb', if_false, attrStep_fp, stepFP, rdU32_put _ _ hvl, ← hv, ne_eq, not_true_eq_false,
     and_false, if_false]
 
 
@@ -807,7 +810,7 @@ theorem decodeX_encode (H : Bytes → Bytes) (hH : ∀ x, (H x).length = 20) (m 
         have := setLen_framed m ((body m).length + 8) ((body m).length + Stun.fpAdjust) []
         simp only [List.append_nil] at this
         rw [this]; rfl
-      have l := loop_fp H buf [] ((body m).length + 8) (0 + (body m).length) _ [] (view m) none (by omega) hv
+      have l := loop_fp H buf [] ((body m).length + 8) (0 + (body m).length) _ [] (view m) none (by omega) (by omega) hv
       simp only [List.append_nil] at l
       unfold fpAttr
       rw [l]
@@ -828,7 +831,7 @@ theorem decodeX_encode (H : Bytes → Bytes) (hH : ∀ x, (H x).length = 20) (m 
         have := setLen_framed m ((body m).length + 24) ((body m).length + Stun.miAdjust) []
         simp only [List.append_nil] at this
         rw [this]; rfl
-      have l := loop_mi H buf k ((body m).length + 24) (0 + (body m).length) _ [] (view m) (by omega) hm
+      have l := loop_mi H buf k ((body m).length + 24) (0 + (body m).length) _ [] (view m) (by omega) (by omega) hm
         (hmacCode_len H hH _ _ _)
       simp only [List.append_nil] at l
       unfold miAttr
@@ -856,7 +859,7 @@ theorem decodeX_encode (H : Bytes → Bytes) (hH : ∀ x, (H x).length = 20) (m 
         simp only [List.append_nil] at this
         rw [this]; rfl
       have l := loop_mi H buf k ((body m).length + 32) (0 + (body m).length) _
-        (fpAttr (framed m ((body m).length + 32) ++ miAttr H m k)) (view m) (by omega) hm (hmacCode_len H hH _ _ _)
+        (fpAttr (framed m ((body m).length + 32) ++ miAttr H m k)) (view m) (by omega) (by omega) hm (hmacCode_len H hH _ _ _)
       have hmi : miAttr H m k ++ fpAttr (framed m ((body m).length + 32) ++ miAttr H m k) =
           putU16 Stun.messageIntegrity ++ (putU16 20 ++ (hmacCode H 64 k (framed m ((body m).length + 24)) ++
             fpAttr (framed m ((body m).length + 32) ++ miAttr H m k))) := by
@@ -869,7 +872,7 @@ theorem decodeX_encode (H : Bytes → Bytes) (hH : ∀ x, (H x).length = 20) (m 
           setLen_framed]
         simp [Stun.fpAdjust]; 
       have l2 := loop_fp H buf k ((body m).length + 32) (0 + (body m).length + 24) _ [] (view m) (some (0 + (body m).length))
-        (by omega) hv
+        (by omega) (by omega) hv
       simp only [List.append_nil] at l2
       unfold fpAttr
       rw [l2]
@@ -1052,6 +1055,9 @@ theorem loop_verified (H : Bytes → Bytes) (buf key : Bytes) (len : Nat) :
     · simp only [hlt, dite_true] at h
       have hs1 : (rdU16 (rdU16 s).2).2 = buf.drop (Stun.headerSize + done + 4) := by
         rw [rdU16_snd, rdU16_snd, hs, List.drop_drop, List.drop_drop]
+      by_cases hbound : done + 4 + (rdU16 (rdU16 s).2).1 > len
+      · rw [if_pos hbound] at h; contradiction
+      rw [if_neg hbound] at h
       by_cases hskip : mi.isSome = true ∧ (rdU16 s).1 ≠ Stun.fingerprint
       · rw [if_pos hskip] at h
         have := ih (len - (done + (4 + (rdU16 (rdU16 s).2).1 + pad4 (rdU16 (rdU16 s).2).1))) (by omega) _ _ m mi d rfl
@@ -1154,48 +1160,21 @@ theorem view_eq_self (m : Msg) (h : StrsOK m) : view m = m := by
   have : qtStr m.errorPhrase = m.errorPhrase := h1
   rw [this]
 
-/-- for every key the code's HMAC is the RFC 2104 HMAC under the key cut to one block -/
-theorem hmacCode_eq_rfc_take (H : Bytes → Bytes) (B : Nat) (k t : Bytes) :
-    hmacCode H B k t = hmacRfc H B (k.take B) t := by
-  by_cases h : k.length ≤ B
-  · rw [List.take_of_length_le h]; exact hmacCode_eq_rfc H B k t h
-  · have hl : (k.take B).length = B := by simp; omega
-    conv => lhs; rw [← List.take_append_drop B k]
-    rw [hmacCode_tail H B _ _ t hl]
-    exact hmacCode_eq_rfc H B _ t (by omega)
-
 theorem encode_congr_key (H : Bytes → Bytes) (m : Msg) (k k' : Bytes) (fp : Bool) (hk : k ≠ []) (hk' : k' ≠ [])
     (h : ∀ t, hmacCode H 64 k t = hmacCode H 64 k' t) : encode H m k fp = encode H m k' fp := by
   simp only [encode, withMI, hk, hk', if_false, h]
 
-/-- the last turn of the loop: an attribute that `attrStep` lets pass and whose announced length reaches or
-passes the end of the body ends the parse successfully — nothing compares the length with what is left -/
+/-- the last turn of the loop: an attribute that `attrStep` lets pass and whose value ends where the body ends (up to
+padding) ends the parse successfully — whatever it swallowed -/
 theorem loop_last (H : Bytes → Bytes) (buf key : Bytes) (len done : Nat) (s : Bytes) (m : Msg)
-    (s' : Bytes) (m' : Msg) (mi' : Option Nat) (hlt : done < len)
+    (s' : Bytes) (m' : Msg) (mi' : Option Nat) (hlt : done < len) (hb : done + 4 + (rdU16 (rdU16 s).2).1 ≤ len)
     (hstep : attrStep H buf key done (rdU16 s).1 (rdU16 (rdU16 s).2).1 (rdU16 (rdU16 s).2).2 m none = .next s' m' mi')
     (hover : len ≤ done + (4 + (rdU16 (rdU16 s).2).1 + pad4 (rdU16 (rdU16 s).2).1)) :
     loop H buf key len done s m none = some ⟨m', mi', none⟩ := by
   rw [loop]
-  simp only [hlt, dite_true, Option.isSome_none, Bool.false_eq_true, false_and, if_false, hstep]
+  have hb' : ¬ (done + 4 + (rdU16 (rdU16 s).2).1 > len) := by omega
+  simp only [hlt, dite_true, hb', Option.isSome_none, Bool.false_eq_true, false_and, if_false, hstep]
   exact loop_done _ _ _ _ _ _ _ _ (by omega)
-
-theorem overrun_decodes (H : Bytes → Bytes) : decode H overrunPacket [] = some overrunResult := by
-  have h20 : ¬ overrunPacket.length < Stun.headerSize := by decide
-  have hs : (rdResize Msg.fresh.id Msg.fresh.id.length (rdU32 (rdU16 (rdU16 overrunPacket).2).2).2).2
-      = [0x00, 0x13, 0x03, 0xe8, 0x41, 0x42, 0x43, 0x44] := by decide
-  have hlen : (rdU16 (rdU16 overrunPacket).2).1 = 8 := by decide
-  unfold decode decodeX decodeFrom
-  simp only [h20, if_false, hs, hlen]
-  rw [loop_last H overrunPacket [] 8 0 _ _ [] overrunResult none (by decide) rfl (by decide)]
-  rfl
-
-theorem rdResize_length (old : Bytes) (n : Nat) (s : Bytes) : (rdResize old n s).1.length = n := by
-  simp only [rdResize, List.length_append, List.length_take, List.length_drop, zeros, List.length_replicate]
-  omega
-
-theorem overrun_length : overrunResult.data.map List.length = some 1000 := by
-  simp only [overrunResult, Option.map_some, rdResize_length]
-
 
 theorem attrStep_username (H : Bytes → Bytes) (buf key : Bytes) (done aLen : Nat) (s : Bytes) (m : Msg) (mi : Option Nat) :
     attrStep H buf key done Stun.username aLen s m mi =
@@ -1211,30 +1190,32 @@ theorem flipBit_append (a r : Bytes) (i : Nat) (h : i / 8 < a.length) : flipBit 
   congr 3
   simp [List.getD_eq_getElem?_getD, List.getElem?_append_left h]
 
-/-- Flipping bit 6 of byte 23 (the low byte of USERNAME's length field: 4 becomes 68) of the packet encoded under
-key `[1]` gives a packet that decodes successfully under the same key: the announced length swallows
-MESSAGE-INTEGRITY, and nothing requires that attribute to be present. -/
+/-- Flipping bit 5 of byte 23 (the low byte of USERNAME's length field: 0 becomes 32) of the packet encoded under
+key `[1]` with fingerprint gives a packet that decodes successfully under the same key: the announced length swallows
+exactly MESSAGE-INTEGRITY (24 bytes) and FINGERPRINT (8 bytes), the value still ends inside the body, and nothing
+requires MESSAGE-INTEGRITY to be present. -/
 theorem bitflip_accepted (H : Bytes → Bytes) (hH : ∀ x, (H x).length = 20) :
-    (decode H (flipBit (encode H bitflipMsg [1] false) 190) [1]).isSome = true := by
+    (decode H (flipBit (encode H bitflipMsg [1] true) 189) [1]).isSome = true := by
   have hid : bitflipMsg.id.length = 12 := by decide
-  rw [encode_key_nofp H hH bitflipMsg [1] (by decide) hid]
-  have hlenR := miAttr_len H hH bitflipMsg [1]
-  generalize miAttr H bitflipMsg [1] = R at hlenR
-  have hP : framed bitflipMsg ((body bitflipMsg).length + 24) =
-      [0, 1, 0, 32, 0x21, 0x12, 0xa4, 0x42, 0, 0, 0, 0, 0, 0, 0, 0, 0, 0, 0, 0, 0, 6, 0, 4, 0x61, 0x62, 0x63, 0x64] := by
+  rw [encode_key_fp H hH bitflipMsg [1] (by decide) hid, List.append_assoc]
+  have hlenR : (miAttr H bitflipMsg [1] ++ fpAttr (framed bitflipMsg ((body bitflipMsg).length + 32) ++ miAttr H bitflipMsg [1])).length = 32 := by
+    rw [List.length_append, miAttr_len H hH, fpAttr_len]
+  generalize miAttr H bitflipMsg [1] ++ fpAttr (framed bitflipMsg ((body bitflipMsg).length + 32) ++ miAttr H bitflipMsg [1]) = R at hlenR
+  have hP : framed bitflipMsg ((body bitflipMsg).length + 32) =
+      [0, 1, 0, 36, 0x21, 0x12, 0xa4, 0x42, 0, 0, 0, 0, 0, 0, 0, 0, 0, 0, 0, 0, 0, 6, 0, 0] := by
     decide
   rw [hP, flipBit_append _ _ _ (by decide)]
-  have hF : flipBit [0, 1, 0, 32, 0x21, 0x12, 0xa4, 0x42, 0, 0, 0, 0, 0, 0, 0, 0, 0, 0, 0, 0, 0, 6, 0, 4, 0x61, 0x62, 0x63, 0x64] 190 =
-      [0, 1, 0, 32, 0x21, 0x12, 0xa4, 0x42, 0, 0, 0, 0, 0, 0, 0, 0, 0, 0, 0, 0, 0, 6, 0, 68, 0x61, 0x62, 0x63, 0x64] := by
+  have hF : flipBit [0, 1, 0, 36, 0x21, 0x12, 0xa4, 0x42, 0, 0, 0, 0, 0, 0, 0, 0, 0, 0, 0, 0, 0, 6, 0, 0] 189 =
+      [0, 1, 0, 36, 0x21, 0x12, 0xa4, 0x42, 0, 0, 0, 0, 0, 0, 0, 0, 0, 0, 0, 0, 0, 6, 0, 32] := by
     decide
   rw [hF]
   unfold decode decodeX decodeFrom
   simp only [List.cons_append, List.nil_append, List.length_cons, hlenR, Stun.headerSize]
   simp only [rdU16, rdU32, rdResize]
   simp [Msg.fresh, Stun.idSize, zeros]
-  rw [loop_last H _ [1] 32 0 _ _ _ _ _ (by decide)
-    (by show attrStep H _ [1] 0 Stun.username 68 _ _ none = _
-        rw [attrStep_username]; rfl) (by show 32 ≤ 0 + (4 + 68 + pad4 68); decide)]
+  rw [loop_last H _ [1] 36 0 _ _ _ _ _ (by decide) (by show 0 + 4 + 32 ≤ 36; decide)
+    (by show attrStep H _ [1] 0 Stun.username 32 _ _ none = _
+        rw [attrStep_username]; rfl) (by show 36 ≤ 0 + (4 + 32 + pad4 32); decide)]
   rfl
 
 /-! ## where MESSAGE-INTEGRITY and FINGERPRINT sit in an encoded packet -/
@@ -1287,5 +1268,104 @@ theorem encode_fp_header (H : Bytes → Bytes) (hH : ∀ x, (H x).length = 20) (
     have : Stun.headerSize + (body m).length + 24 = (framed m ((body m).length + 32) ++ miAttr H m k).length := by
       rw [List.length_append, framed_len m _ hid, miAttr_len H hH]; rfl
     rw [this, List.drop_left]; rfl
+
+/-! ## accepted ⇒ every attribute lies inside the packet (since /repo commit df53ac0) -/
+
+theorem tlvFitsGo_nil (fuel : Nat) : tlvFitsGo fuel [] = true := by
+  cases fuel <;> rfl
+
+/-- the loop only succeeds on a stream whose TLV walk fits -/
+theorem loop_fits (H : Bytes → Bytes) (buf key : Bytes) (len : Nat) (hlen : len = buf.length - Stun.headerSize) :
+    ∀ (n done : Nat) (s : Bytes) (m : Msg) (mi : Option Nat) (d : Decoded) (fuel : Nat),
+      len - done = n → s = buf.drop (Stun.headerSize + done) → s.length ≤ fuel →
+      loop H buf key len done s m mi = some d → tlvFitsGo fuel s = true := by
+  intro n
+  induction n using Nat.strongRecOn with
+  | ind n ih =>
+    intro done s m mi d fuel hn hs hfuel h
+    rw [loop] at h
+    have hsl : s.length = buf.length - (Stun.headerSize + done) := by rw [hs, List.length_drop]
+    by_cases hlt : done < len
+    · simp only [hlt, dite_true] at h
+      have hs1 : (rdU16 (rdU16 s).2).2 = buf.drop (Stun.headerSize + done + 4) := by
+        rw [rdU16_snd, rdU16_snd, hs, List.drop_drop, List.drop_drop]
+      by_cases hbound : done + 4 + (rdU16 (rdU16 s).2).1 > len
+      · rw [if_pos hbound] at h; contradiction
+      rw [if_neg hbound] at h
+      have hs4 : 4 + (rdU16 (rdU16 s).2).1 ≤ s.length := by rw [hsl]; simp only [Stun.headerSize] at hlen ⊢; omega
+      have hr1 : (rdU16 (rdU16 s).2).2.length = s.length - 4 := by
+        rw [rdU16_snd, rdU16_snd, List.drop_drop, List.length_drop]
+      obtain ⟨f, rfl⟩ : ∃ f, fuel = f + 1 := ⟨fuel - 1, by omega⟩
+      have hne : s ≠ [] := by intro h0; rw [h0] at hs4; simp at hs4
+      have hgo : tlvFitsGo (f + 1) s =
+          (if (rdU16 s).1 = Stun.fingerprint then true
+           else tlvFitsGo f ((rdU16 (rdU16 s).2).2.drop ((rdU16 (rdU16 s).2).1 + pad4 (rdU16 (rdU16 s).2).1))) := by
+        cases s with
+        | nil => exact absurd rfl hne
+        | cons a t =>
+          have h4 : ¬ (a :: t).length < 4 := by omega
+          have hv : ¬ (rdU16 (rdU16 (a :: t)).2).2.length < (rdU16 (rdU16 (a :: t)).2).1 := by rw [hr1]; omega
+          simp only [tlvFitsGo, h4, hv, if_false]
+      rw [hgo]
+      by_cases hfp : (rdU16 s).1 = Stun.fingerprint
+      · rw [if_pos hfp]
+      · rw [if_neg hfp]
+        have hnext : ∀ (s' : Bytes) (m' : Msg) (mi' : Option Nat),
+            s' = (rdU16 (rdU16 s).2).2.drop ((rdU16 (rdU16 s).2).1 + pad4 (rdU16 (rdU16 s).2).1) →
+            loop H buf key len (done + (4 + (rdU16 (rdU16 s).2).1 + pad4 (rdU16 (rdU16 s).2).1)) s' m' mi' = some d →
+            tlvFitsGo f s' = true := by
+          intro s' m' mi' hs' hl
+          refine ih (len - (done + (4 + (rdU16 (rdU16 s).2).1 + pad4 (rdU16 (rdU16 s).2).1))) (by omega) _ s' m' mi' d f rfl
+            (by rw [hs', hs1, List.drop_drop]; congr 1; simp only [Stun.headerSize]; omega)
+            (by rw [hs', List.length_drop, hr1]; omega) hl
+        by_cases hskip : mi.isSome = true ∧ (rdU16 s).1 ≠ Stun.fingerprint
+        · rw [if_pos hskip] at h
+          exact hnext _ m mi rfl h
+        · rw [if_neg hskip] at h
+          cases hstep : attrStep H buf key done (rdU16 s).1 (rdU16 (rdU16 s).2).1 (rdU16 (rdU16 s).2).2 m mi with
+          | fail => rw [hstep] at h; simp at h
+          | accept m' d0 =>
+            by_cases hmi : (rdU16 s).1 = Stun.messageIntegrity
+            · rw [hmi, attrStep_mi] at hstep
+              exact absurd hstep (stepMI_not_accept _ _ _ _ _ _ _ _ _)
+            · have := attrStep_plain H buf key done _ (rdU16 (rdU16 s).2).1 (rdU16 (rdU16 s).2).2 m mi hmi hfp
+              rw [hstep] at this
+              exact absurd this (by simp [Plain])
+          | next s' m' mi' =>
+            rw [hstep] at h
+            simp only at h
+            have hdrop : s' = (rdU16 (rdU16 s).2).2.drop (rdU16 (rdU16 s).2).1 := by
+              by_cases hmi : (rdU16 s).1 = Stun.messageIntegrity
+              · rw [hmi, attrStep_mi] at hstep
+                exact (stepMI_next _ _ _ _ _ _ _ _ _ _ hstep).2.1
+              · have := attrStep_plain H buf key done _ (rdU16 (rdU16 s).2).1 (rdU16 (rdU16 s).2).2 m mi hmi hfp
+                rw [hstep] at this
+                exact this.1
+            rw [hdrop, List.drop_drop] at h
+            exact hnext _ m' mi' rfl h
+    · have : s = [] := by
+        apply List.eq_nil_of_length_eq_zero
+        rw [hsl]; simp only [Stun.headerSize] at hlen ⊢; omega
+      rw [this]; exact tlvFitsGo_nil fuel
+
+/-- every accepted packet has all its attribute headers and values inside the packet -/
+theorem decodeX_fits (H : Bytes → Bytes) (buf key : Bytes) (d : Decoded) (h : decodeX H buf key = some d) :
+    tlvFits buf = true := by
+  unfold decodeX decodeFrom at h
+  split at h
+  · contradiction
+  · simp only at h
+    split at h
+    · contradiction
+    · rename_i _ hl
+      have hl : (rdU16 (rdU16 buf).2).1 = buf.length - Stun.headerSize := by simpa using hl
+      have hs : (rdResize Msg.fresh.id Msg.fresh.id.length (rdU32 (rdU16 (rdU16 buf).2).2).2).2
+          = buf.drop (Stun.headerSize + 0) := by
+        rw [rdResize_snd, rdU32_snd, rdU16_snd, rdU16_snd, List.drop_drop, List.drop_drop, List.drop_drop]
+        rfl
+      unfold tlvFits
+      have := loop_fits H buf key _ hl _ 0 _ _ none d buf.length rfl hs (by rw [hs, List.length_drop]; omega) h
+      rw [hs] at this
+      exact this
 
 end Qx.C14
